@@ -8,6 +8,7 @@ import (
 	proto "github.com/gogo/protobuf/proto"
 
 	codectypes "github.com/cosmos/cosmos-sdk/codec/types"
+	sdk "github.com/cosmos/cosmos-sdk/types"
 	sdkerrors "github.com/cosmos/cosmos-sdk/types/errors"
 
 	"github.com/teleport-network/teleport/x/xibc/core/host"
@@ -93,6 +94,24 @@ func ValidateClientType(clientType string) error {
 	}
 	if err := host.ClientIdentifierValidator(clientType); err != nil {
 		return sdkerrors.Wrap(err, "client type being invalid")
+	}
+	return nil
+}
+
+// Validate performs the stateless checks RegisterRelayerProposal.ValidateBasic applies to a relayer
+// before it can be registered: a valid account address (it is the store key of the relayer), one
+// address on the other chain per chain, valid chain names.
+func (ir IdentifiedRelayer) Validate() error {
+	if _, err := sdk.AccAddressFromBech32(ir.Address); err != nil {
+		return sdkerrors.Wrapf(sdkerrors.ErrInvalidAddress, "string could not be parsed as address: %v", err)
+	}
+	if len(ir.Addresses) == 0 || len(ir.Addresses) != len(ir.Chains) {
+		return sdkerrors.Wrapf(ErrInvalidRelayer, "%d chains, %d addresses", len(ir.Chains), len(ir.Addresses))
+	}
+	for _, chain := range ir.Chains {
+		if err := host.ClientIdentifierValidator(chain); err != nil {
+			return err
+		}
 	}
 	return nil
 }
